@@ -486,7 +486,15 @@ impl Sim {
     // -------------------------------------------------------------------------------------------- management steps
 
     pub fn step_init(&mut self, obs: &mut Obs, mask: u8) {
-        let ms: Vec<usize> = (0..self.n_markets).filter(|i| mask & (1 << i) != 0).collect();
+        let mut ms: Vec<usize> = (0..self.n_markets).filter(|i| mask & (1 << i) != 0).collect();
+        // bits 6 / 7: also pass the market with a foreign short / long token (must be rejected)
+        if mask & 0x40 != 0 {
+            ms.push(N_COMPAT);
+        }
+        if mask & 0x80 != 0 {
+            ms.push(N_COMPAT + 1);
+        }
+        let foreign = mask & 0xc0 != 0 && ms.len() > 1;
         if ms.is_empty() {
             obs.event(|| "init_glv noop (empty mask)".into());
             return;
@@ -496,6 +504,9 @@ impl Sim {
         let out = self.tx(obs, "keeper", "initialize_glv", &[ix], &TxOpts::default());
         if out.ok && existed {
             obs.probe("reinit_accepted");
+        }
+        if foreign {
+            obs.probe(if out.ok { "init_foreign_accepted" } else { "init_foreign_rejected" });
         }
     }
 
@@ -1094,6 +1105,9 @@ impl Sim {
     pub fn probe_round_trip(&self, obs: &mut Obs, user: usize, m: usize, gm: u64, long: u64, short: u64) {
         let mut f = self.clone();
         f.forked = true;
+        f.view_cross_check(obs);
+        // value recorded in the GLV while no GLV token exists (left behind by rounding of earlier withdrawals)
+        let orphaned = f.glv_supply() == 0 && f.balances().iter().any(|(_, b)| *b > 0);
         let Some((put_in, minted)) = f.full_deposit(obs, user, m, gm, long, short) else {
             obs.probe("round_trip_deposit_failed");
             return;
@@ -1123,9 +1137,32 @@ impl Sim {
             obs.violation(
                 P45,
                 "round_trip",
-                format!("with_tokens={}", long > 0 || short > 0),
-                format!("market {m}: GLV deposit added {put_in} market tokens and minted {minted} GLV tokens; withdrawing them at once took {taken} market tokens out"),
+                format!("with_tokens={},orphaned_value={orphaned}", long > 0 || short > 0),
+                format!("market {m}: GLV deposit added {put_in} market tokens and minted {minted} GLV tokens; withdrawing them at once took {taken} market tokens out (GLV supply was zero with recorded balances before: {orphaned})"),
             );
+        }
+    }
+
+    /// `get_glv_token_value` (the program's own view) against the sum recomputed from
+    /// `get_market_token_value`; a mismatch is counted as a probe, not a violation (the statement does not
+    /// cover the view instruction).
+    pub fn view_cross_check(&mut self, obs: &mut Obs) {
+        let Some(glv) = self.glv() else {
+            return;
+        };
+        let d = self.d.clone();
+        let balances = self.balances();
+        let supply = self.glv_supply();
+        for maximize in [true, false] {
+            let mut scratch = self.w.clone();
+            let out = scratch.process(glvx::get_glv_token_value_ix(&d, &self.k, &glv, supply.max(1), maximize));
+            let view = if out.ok { glvx::parse_glv_token_value(&out).map(|e| e.glv_value) } else { None };
+            let mine = Self::glv_value(&mut scratch, &d, &balances, maximize).and_then(|v| simcore::big::to_u128(&v));
+            match (view, mine) {
+                (Some(a), Some(b)) if a == b => obs.probe("glv_value_view_agrees"),
+                (Some(_), Some(_)) => obs.probe("glv_value_view_mismatch"),
+                _ => obs.probe("glv_value_view_unevaluable"),
+            }
         }
     }
 
@@ -1250,7 +1287,14 @@ impl Sim {
                 }
             }
             Step::CreateShift { from, to, bps, min_to } => {
-                if let (Some(from), Some(to)) = (gmk(*from), gmk(*to)) {
+                // `to` is an offset from `from` among the other members (same market only when the GLV has one)
+                let to_idx = if members.len() > 1 {
+                    let fi = *from as usize % members.len();
+                    Some(members[(fi + 1 + (*to as usize % (members.len() - 1))) % members.len()])
+                } else {
+                    gmk(*to)
+                };
+                if let (Some(from), Some(to)) = (gmk(*from), to_idx) {
                     let bal = self.recorded(from).unwrap_or(0);
                     let amount = (bal as u128 * (*bps).min(10_000) as u128 / 10_000) as u64;
                     self.step_create_shift(obs, from, to, amount, *min_to);
@@ -1357,6 +1401,9 @@ impl Scenario for GlvHistory {
         if r.chance(2, 3) {
             mask = ((1u16 << nm) - 1) as u8;
         }
+        if batch != Batch::Plain && r.chance(1, 5) {
+            steps.push(Step::InitGlv { mask: mask | *r.pick(&[0x40u8, 0x80, 0xc0]) });
+        }
         steps.push(Step::InitGlv { mask });
         for m in 0..nm {
             if r.chance(9, 10) {
@@ -1405,7 +1452,7 @@ impl Scenario for GlvHistory {
                 }
                 43..=50 => {
                     let from = r.below(nm) as u8;
-                    let to = ((from as u64 + r.range(0, nm - 1)) % nm) as u8;
+                    let to = r.below(nm) as u8;
                     steps.push(Step::CreateShift { from, to, bps: *r.pick(&[10u16, 1000, 5000, 10_000]), min_to: if r.chance(1, 6) { u64::MAX / 2 } else { 0 } });
                     let throw = r.chance(1, 3);
                     push_flow(&mut r, &mut steps, faults, throw);
@@ -1436,7 +1483,7 @@ impl Scenario for GlvHistory {
                     let max_value = if r.chance(1, 5) { None } else { Some(gen_val(&mut r, kind)) };
                     steps.push(Step::Config { m: r.below(nm) as u8, max_amount, max_value });
                 }
-                73..=75 => steps.push(Step::Toggle { m: r.below(nm) as u8, enable: r.chance(2, 3) }),
+                73..=75 => steps.push(Step::Toggle { m: r.below(nm) as u8, enable: r.chance(4, 5) }),
                 76..=79 => {
                     let m = if r.chance(1, 2) { r.range(N_COMPAT as u64, N_MARKETS as u64 - 1) } else { r.below(N_COMPAT as u64) } as u8;
                     let by = if faults && r.chance(1, 5) { *r.pick(&[Who::Stranger, Who::User(0)]) } else { Who::Keeper };
